@@ -17,6 +17,16 @@ DRIVER = "drv_c07"
 HARNESS = {"bin": "pvh_c07", "features": "default"}
 THEOREMS = [
     "PV.C07.conv_table_eq",
+    "PV.C07.fstring_eq_spec_partial",
+    "PV.C07.fstring_deviates_triple_quote",
+    "PV.C07.fstring_deviates_selfdoc_whitespace",
+    "PV.C07.fstring_deviates_spec_escape",
+    "PV.C07.fstring_deviates_selfdoc_in_spec",
+    "PV.C07.fstring_full_fails",
+    "PV.C07.merge_spec",
+    "PV.C07.merge_fails_empty_literal",
+    "PV.C07.selfdoc_spec",
+    "PV.C07.field_offsets_crlf_fails",
 ]
 TRUSTED = [
     "Lean 4.33.0 kernel; axioms limited to propext, Classical.choice, Quot.sound",
@@ -30,12 +40,40 @@ TRUSTED = [
     "CPython 3.11.7 ast.parse as the reference decomposition (pre-PEP 701 rules) and as the source of field positions",
     "tools/props/c07.py (generators, reference scanner used for the claims, oracle), harness/src/bin/pvh_c07.rs, lean/Drv/C07.lean",
 ]
-PARTIAL = []
+PARTIAL = [
+    "fstring_eq_spec_partial holds on the domain `Spec.split strict:=true` answers on: the reference rules minus "
+    "(a) triple-quoted strings inside a field, (b) white space other than blanks after a self-documenting '=', "
+    "(c) a backslash in the literal text that opens a format spec of a non-raw f-string, (d) a self-documenting field "
+    "nested in a format spec, (e) an expression text consisting of Unicode white space only. (a)-(d) are known "
+    "findings with kernel-checked witnesses (fstring_deviates_*, fstring_full_fails); (e) is rejected by the reference "
+    "later as an invalid expression, which the text/offset abstraction does not see",
+    "the expression inside a field is abstracted as (text, absolute offset); that the tree in the result is the parse of "
+    "'(' text ')' at offset-1 is checked by the harness on every request, not proved",
+    "merge_spec: equality with the reference merge under noEmptyRun (an empty plain literal that is not adjacent to "
+    "other literal text leaves an empty constant: known finding, witness merge_fails_empty_literal)",
+    "field offsets are offsets into the token value the lexer captured; they are source offsets only when the literal "
+    "contains no CRLF (witness field_offsets_crlf_fails; general no-CR statement not proved, sampled by every stream "
+    "through CPython's positions)",
+    "that the strict scanner is a restriction of the reference scanner (same answer wherever it answers) is checked on "
+    "every run over the generated sources (spec validation), not proved",
+]
 READY = True
 TECHNIQUE = ("Lean 4 model of the hand-written f-string scanner + independent reference scanner + theorems relating "
              "them on an explicit domain, exhaustive small-scope and structured random correspondence, CPython as oracle")
-LEVEL_TEXT = ""
-LEVEL_NOTE = ""
+LEVEL_TEXT = ("Machine-checked Lean 4 theorem, for f-string bodies of every length and every start offset: whenever the "
+              "reference scanner (CPython 3.11 rules, validated against CPython on every run) accepts a body inside the "
+              "stated domain, the model of the Rust scanner accepts it and yields, after merging adjacent literals, "
+              "exactly the reference pieces: literal text, and per field the expression text, its absolute offset, the "
+              "conversion (default !r of the '=' form included) and the nested format spec. The shapes excluded from "
+              "the domain are exactly the listed known findings, each with a kernel-checked witness that the unchanged "
+              "scanner deviates there. Merging across implicitly concatenated literals equals the reference merge "
+              "unless a run of constants is empty (witnessed). The conversion-letter table is extracted from the real "
+              "parser on every run and re-proved by decide. The model is tied to the code by exhaustive small-scope, "
+              "directed, random and real-world (stdlib) correspondence; the real code is judged by CPython's own "
+              "decomposition and field positions; the text/offset abstraction is checked in the harness per request.")
+LEVEL_NOTE = ("Trusted: Lean kernel, model fidelity as sampled, the expression parser behind the (text, offset) "
+              "abstraction (checked per request by tree equality in the harness), CPython 3.11.7 as reference, "
+              "harness and generators.")
 RULE = ("request = one expression made of adjacent string literals, at least one of them an f-string, which CPython "
         "3.11 accepts, sent to the real parser and the Lean model; distinct = distinct request line")
 
